@@ -36,13 +36,14 @@ def run(tier, seed, ev):
         hobs = [(f"history {' ; '.join(k)} with one failed call: record versions in the log strictly increase", "history",
                  (lambda k: lambda ex: H.ob_fault_history(ex, k, 2, 2))(k)) for k in hist]
         rc_t = tcommon.best(rc_t, c14.run_histories(PROP, tier, seed, ev, ex, hobs, accept=lambda role: role.startswith("version-reused")))
-        if tier == "thorough":
-            # writer || checkpoint (every interleaving at lock granularity): a snapshot labelled v holds exactly the operations with
-            # version <= v that were logged when it was written, and no acknowledged write is lost - so snapshot + log stays the history
-            import sprop
-            rc_t = tcommon.best(rc_t, sprop.run_s(PROP, tier, seed, ev, ex, [(("put", "checkpoint"), 1, 2), (("remove", "checkpoint"), 1, 2)],
-                                                  accept=lambda role: role in ("snapshot-inconsistent", "lost-update", "deadlock", "panic")))
-            ev.bounds["writer || checkpoint"] = "thorough: 2 threads (put or remove, explicit checkpoint), key universe 1, hash universe 2, quiet log stretch, N=8"
+        # writer || checkpoint (every interleaving at lock granularity): a snapshot labelled v holds exactly the operations with
+        # version <= v that were logged when it was written, and no acknowledged write is lost - so snapshot + log stays the history
+        import sprop
+        wplans = [(("put", "checkpoint"), 1, 1)] if tier == "quick" else [(("put", "checkpoint"), 1, 2), (("remove", "checkpoint"), 1, 2)]
+        rc_t = tcommon.best(rc_t, sprop.run_s(PROP, tier, seed, ev, ex, wplans,
+                                              accept=lambda role: role in ("snapshot-inconsistent", "lost-update", "deadlock", "panic")))
+        ev.bounds["writer || checkpoint"] = ("2 threads (quick: put + explicit checkpoint, key universe 1, hash universe 1; thorough: put or remove, hash universe 2), "
+                                             "quiet log stretch, N=8")
         ev.functions += c03.KH_LIST[0].functions + tcommon.MIR_FUNCS[:6]
         ev.bounds["write_entry payload"] = c03.KH_LIST[0].bounds
         ev.outside.append("wf(image) is decided per operation from an abstract well-formed pre-image (inductive step); record framing bytes and "
